@@ -9,6 +9,7 @@ carrying a different label — the condition of the C++ `case grey:`.  Labels of
 change, so the two labels read at such a visit are the final labels.
 -/
 import Mahotas.Proofs.C04Sim
+import Mahotas.Proofs.C04Lines
 
 set_option linter.unusedSimpArgs false
 set_option linter.unusedVariables false
@@ -538,5 +539,184 @@ theorem cwatershedTrace_good (surf markers : Img Int) (bshape : List Nat) (bc : 
   unfold cwatershedTrace
   apply modelTrace_good surf _ _ _ _ _ (init_rel surf markers hm)
   intro o ho; rw [offsets_length bshape bc o ho, hb]
+
+/-! ### the same for the specification flooding: its own trace, over coordinates -/
+
+/-- one neighbour visit of the specification (`p + off` inside the image): what `specVisit` reads -/
+structure SEv where
+  /-- the popped pixel -/
+  p : List Int
+  /-- the neighbour `p + off` -/
+  q : List Int
+  /-- is `q` in the queue at the visit -/
+  queued : Bool
+  /-- label of `p` at the visit -/
+  lp : Int
+  /-- label of `q` at the visit -/
+  lq : Int
+deriving Repr, DecidableEq
+
+def specVisitEv (surf : Img Int) (p : List Int) (st : SSt) (off : List Int) : Option SEv :=
+  let q := addPos p off
+  if !inside surf.shape q then none else
+    some ⟨p, q, st.queue.any (fun e => e.pos == q), st.label.getD p 0, st.label.getD q 0⟩
+
+def svisitsEv (surf : Img Int) (p : List Int) : List (List Int) → SSt → List SEv
+  | [], _ => []
+  | o :: os, st => (specVisitEv surf p st o).toList ++ svisitsEv surf p os (specVisit surf p st o)
+
+def specTrace (surf : Img Int) (offs : List (List Int)) : Nat → SSt → List SEv
+  | 0, _ => []
+  | n + 1, st =>
+    match extractMin SQE.key st.queue with
+    | none => []
+    | some (e, rest) =>
+      svisitsEv surf e.pos offs { st with queue := rest } ++
+        specTrace surf offs n (offs.foldl (specVisit surf e.pos) { st with queue := rest })
+
+def cwatershedSpecTrace (surf markers : Img Int) (bshape : List Nat) (bc : Array Int) : List SEv :=
+  specTrace surf (offsets bshape bc) (fuelOf surf.shape) (specInit surf markers)
+
+/-- the visit makes `r` a line pixel: `r` is the neighbour, labelled, queued, and carries another label -/
+def SEv.marks (ev : SEv) (r : List Int) : Prop := ev.q = r ∧ ev.lq ≠ 0 ∧ ev.queued = true ∧ ev.lp ≠ ev.lq
+
+structure LSized (s : List Nat) (st : SSt) : Prop where
+  nshape : st.lines.shape = s
+  nsize : st.lines.data.size = shapeSize s
+
+theorem imgSet_size {α : Type} (im : Img α) (p : List Int) (v : α) :
+    (imgSet im p v).data.size = im.data.size := by
+  unfold imgSet; split_ifs
+  · simp only [Array.size_setIfInBounds]
+  · rfl
+
+theorem svisit_lsized (surf : Img Int) (p : List Int) (st : SSt) (o : List Int) (h : LSized surf.shape st) :
+    LSized surf.shape (specVisit surf p st o) := by
+  unfold specVisit
+  simp only
+  split_ifs
+  · exact h
+  · exact ⟨h.nshape, h.nsize⟩
+  · exact ⟨by simp only [imgSet_shape]; exact h.nshape, by simp only [imgSet_size]; exact h.nsize⟩
+  · exact h
+  · exact h
+
+theorem svisit_lines (surf : Img Int) (p : List Int) (st : SSt) (o : List Int) (h : LSized surf.shape st)
+    (r : List Int) :
+    (specVisit surf p st o).lines.getD r false = true ↔
+      st.lines.getD r false = true ∨ ∃ ev ∈ (specVisitEv surf p st o).toList, ev.marks r := by
+  unfold specVisit specVisitEv SEv.marks
+  simp only
+  cases hin : inside surf.shape (addPos p o)
+  · simp
+  · simp only [Bool.not_true, Bool.false_eq_true, if_false, Option.toList_some, List.mem_singleton,
+      exists_eq_left]
+    by_cases h0 : st.label.getD (addPos p o) 0 = 0
+    · simp only [h0, beq_self_eq_true, if_true]
+      constructor
+      · intro h; exact Or.inl h
+      · rintro (h | ⟨_, h, _⟩)
+        · exact h
+        · exact absurd rfl h
+    · have hb : (st.label.getD (addPos p o) 0 == 0) = false := by simpa using h0
+      simp only [hb, Bool.false_eq_true, if_false]
+      by_cases hq : (st.queue.any fun e => e.pos == addPos p o) = true
+      · simp only [hq, if_true]
+        by_cases hd : st.label.getD p 0 = st.label.getD (addPos p o) 0
+        · simp only [hd, bne_self_eq_false, Bool.false_eq_true, if_false]
+          constructor
+          · intro h; exact Or.inl h
+          · rintro (h | ⟨_, _, _, h⟩)
+            · exact h
+            · exact absurd rfl h
+        · have hbd : (st.label.getD p 0 != st.label.getD (addPos p o) 0) = true := by simpa using hd
+          simp only [hbd, if_true]
+          have hin' : inside st.lines.shape (addPos p o) = true := by rw [h.nshape]; exact hin
+          rw [imgSet_getD_bool st.lines (by rw [h.nsize, h.nshape]) (addPos p o) true hin' r]
+          by_cases hr : r = addPos p o
+          · simp only [hr, if_true, true_iff]
+            exact Or.inr ⟨trivial, h0, trivial, hd⟩
+          · simp only [hr, if_false]
+            constructor
+            · intro h; exact Or.inl h
+            · rintro (h | ⟨h, _⟩)
+              · exact h
+              · exact absurd h.symm hr
+      · simp only [hq, Bool.false_eq_true, if_false]
+        constructor
+        · intro h; exact Or.inl h
+        · rintro (h | ⟨_, _, h, _⟩)
+          · exact h
+          · exact h.elim
+
+theorem sfold_lsized (surf : Img Int) (p : List Int) (os : List (List Int)) :
+    ∀ st, LSized surf.shape st → LSized surf.shape (os.foldl (specVisit surf p) st) := by
+  induction os with
+  | nil => intro st h; exact h
+  | cons o os ih => intro st h; simp only [List.foldl_cons]; exact ih _ (svisit_lsized surf p st o h)
+
+theorem sfold_lines (surf : Img Int) (p : List Int) (os : List (List Int)) (r : List Int) :
+    ∀ st, LSized surf.shape st →
+      ((os.foldl (specVisit surf p) st).lines.getD r false = true ↔
+        st.lines.getD r false = true ∨ ∃ ev ∈ svisitsEv surf p os st, ev.marks r) := by
+  induction os with
+  | nil => intro st _; simp [svisitsEv]
+  | cons o os ih =>
+    intro st h
+    simp only [List.foldl_cons, svisitsEv, List.mem_append]
+    rw [ih _ (svisit_lsized surf p st o h), svisit_lines surf p st o h r]
+    constructor
+    · rintro ((h1 | ⟨ev, h1, h2⟩) | ⟨ev, h1, h2⟩)
+      · exact Or.inl h1
+      · exact Or.inr ⟨ev, Or.inl h1, h2⟩
+      · exact Or.inr ⟨ev, Or.inr h1, h2⟩
+    · rintro (h1 | ⟨ev, h1 | h1, h2⟩)
+      · exact Or.inl (Or.inl h1)
+      · exact Or.inl (Or.inr ⟨ev, h1, h2⟩)
+      · exact Or.inr ⟨ev, h1, h2⟩
+
+theorem srun_lines (surf : Img Int) (offs : List (List Int)) (r : List Int) (n : Nat) :
+    ∀ st, LSized surf.shape st →
+      ((specRun surf offs n st).lines.getD r false = true ↔
+        st.lines.getD r false = true ∨ ∃ ev ∈ specTrace surf offs n st, ev.marks r) := by
+  induction n with
+  | zero => intro st _; simp [specRun, specTrace]
+  | succ n ih =>
+    intro st h
+    simp only [specRun, specStep, specTrace]
+    cases hx : extractMin SQE.key st.queue with
+    | none => simp
+    | some er =>
+      obtain ⟨e, rest⟩ := er
+      simp only [List.mem_append]
+      have h1 : LSized surf.shape { st with queue := rest } := ⟨h.nshape, h.nsize⟩
+      rw [ih _ (sfold_lsized surf e.pos offs _ h1), sfold_lines surf e.pos offs r _ h1]
+      constructor
+      · rintro ((h1 | ⟨ev, h1, h2⟩) | ⟨ev, h1, h2⟩)
+        · exact Or.inl h1
+        · exact Or.inr ⟨ev, Or.inl h1, h2⟩
+        · exact Or.inr ⟨ev, Or.inr h1, h2⟩
+      · rintro (h1 | ⟨ev, h1 | h1, h2⟩)
+        · exact Or.inl (Or.inl h1)
+        · exact Or.inl (Or.inr ⟨ev, h1, h2⟩)
+        · exact Or.inr ⟨ev, h1, h2⟩
+
+/-- **lines of the specification, exactly** -/
+theorem cwatershedSpec_lines_exact (surf markers : Img Int) (bshape : List Nat) (bc : Array Int)
+    (r : List Int) :
+    (cwatershedSpec surf markers bshape bc).lines.getD r false = true ↔
+      ∃ ev ∈ cwatershedSpecTrace surf markers bshape bc, ev.marks r := by
+  unfold cwatershedSpec cwatershedSpecTrace
+  have hl := init_linv surf markers (offsets bshape bc)
+  rw [srun_lines surf _ r _ _ ⟨hl.nshape, hl.nsize⟩]
+  have h0 : (specInit surf markers).lines.getD r false = false := by
+    rw [specInit_eq, init_lines]
+    unfold Img.getD initS
+    simp only
+    split_ifs
+    · exact replicate_getD _ _ _
+    · rfl
+  rw [h0]
+  simp
 
 end Mahotas.C04
